@@ -1,5 +1,6 @@
 import Cfdm.Driver.Parse
 import Cfdm.Model.Ugrid
+import Cfdm.Model.UgridRead
 /-
 Line-protocol driver for C15.
 
@@ -7,10 +8,16 @@ A 2-d masked integer array is `[a,b,--;c,d,e]` (rows separated by `;`, `--` is
 a masked element).  Streams:
 
   C15.point  src=faces|edges si=0|1 cd=0|1 n=<nat>|_ conn=<stored array>   → rows=<array>
-  C15.cells  cd=0|1 conn=<stored array>                                    → rows=<array>
+  C15.cells  si=0|1 cd=0|1 conn=<stored array>                             → rows=<array>
   C15.cconn  si=0|1 cd=0|1 data=<stored array>                             → rows=<array>
   C15.bounds si=0|1 cd=0|1 conn=<stored array> coords=[ints]               → rows=<array>
   C15.norm   cell=point|cc|face|edge ob=0|1 data=<array>                   → rows=<array>
+  C15.read   what=topo|cconn|bounds loc=node|edge|face nn=<nat> fdim=<dim>|_ edim=<dim>|_ coords=[ints]
+             [fn.d=<dim,dim> fn.si=<nat> fn.a=<stored array>] [en.d= en.si= en.a=] [ff.d= ff.si= ff.a=]
+             [lis.si=<nat> lis.idx=[nats]] [pos=[nats] [step=<int>]] [norm=0|1]          → rows=<array> | none
+     the construct that a data variable on `loc` of the described mesh receives (through the location
+     index set if given), then subspaced on the cell axis at the positions `pos` (`step`: the index was a
+     slice with that step; absent: a list), then normalised.
 -/
 namespace Cfdm.Driver.C15
 open Cfdm.Driver Cfdm.Ugrid
@@ -64,13 +71,15 @@ def runPoint (kv : KV) : String :=
 
 def runCells (kv : KV) : String :=
   match (do
+    let si ← parseBit (← kv.get? "si")
     let cd ← parseBit (← kv.get? "cd")
     let conn ← parseMat (← kv.get? "conn")
-    some (cd, conn)) with
+    some (si, cd, conn)) with
   | none => "bad-op"
-  | some (cd, stored) =>
+  | some (si, cd, stored) =>
     if !rectangular stored then "bad-op" else
-    showMat (cellTopology cd stored)
+    if !(vals stored).all (fun v => decide (si ≤ v)) then "rejected" else
+    showMat (cellTopology si cd stored)
 
 def runCconn (kv : KV) : String :=
   match (do
@@ -118,6 +127,90 @@ def runNorm (kv : KV) : String :=
       showIMat (normaliseCellIds ob data)
     else "bad-op"
 
+/-! ### C15.read -/
+open Cfdm.UgridRead in
+def parseConnVar (kv : KV) (pre : String) : Option (Option ConnVar) :=
+  match kv.get? (pre ++ ".d"), kv.get? (pre ++ ".si"), kv.get? (pre ++ ".a") with
+  | none, none, none => some none
+  | some d, some si, some a => do
+    let si ← si.toNat?
+    let a ← parseMat a
+    if !rectangular a then none else
+    some (some { dims := d.splitOn ",", si := si, data := a })
+  | _, _, _ => none
+
+def parseOptName (s : String) : Option String := if s == "_" then none else some s
+
+/-- ids in the first column unmasked (hypothesis of the normalise theorems) -/
+def idsOk (d : IMat) : Bool := !d.isEmpty && (firstCol d).length == d.length
+
+open Cfdm.UgridRead in
+def runRead (kv : KV) : String :=
+  match (do
+    let what ← kv.get? "what"
+    let loc ← match (← kv.get? "loc") with
+      | "node" => some Loc.node | "edge" => some Loc.edge | "face" => some Loc.face | _ => none
+    let nn ← (← kv.get? "nn").toNat?
+    let fdim := parseOptName (← kv.get? "fdim")
+    let edim := parseOptName (← kv.get? "edim")
+    let coords ← parseIntList (← kv.get? "coords")
+    let fn ← parseConnVar kv "fn"
+    let en ← parseConnVar kv "en"
+    let ff ← parseConnVar kv "ff"
+    let lis ← match kv.get? "lis.si", kv.get? "lis.idx" with
+      | none, none => some none
+      | some si, some idx => do
+        let si ← si.toNat?
+        let idx ← parseNatList idx
+        some (some ({ loc := loc, si := si, idx := idx } : Lis))
+      | _, _ => none
+    let pos ← match kv.get? "pos" with
+      | none => some none
+      | some p => (parseNatList p).map some
+    let step ← match kv.get? "step" with
+      | none => some none
+      | some t => (parseInt? t).map some
+    let norm ← match kv.get? "norm" with
+      | none => some none
+      | some b => (parseBit b).map some
+    let m : Mesh := { nodeDim := "nnode", nNodes := nn, faceDim := fdim, edgeDim := edim,
+                      faceNode := fn, edgeNode := en, faceFace := ff, coords := coords }
+    some (what, loc, m, lis, pos, step, norm)) with
+  | none => "bad-op"
+  | some (what, loc, m, lis, pos, step, norm) =>
+    -- stored values below the start index, or node ids beyond the coordinates, are outside the streams
+    let okVar := fun (o : Option ConnVar) => match o with
+      | none => true
+      | some v => (vals v.data).all (fun x => decide (v.si ≤ x))
+    if !(okVar m.faceNode && okVar m.edgeNode && okVar m.faceFace) then "rejected" else
+    let okIdx := fun (o : Option ConnVar) => match o with
+      | none => true
+      | some v => (vals v.data).all (fun x => decide (x < v.si + m.coords.length))
+    if what == "bounds" && !(okIdx (nodeConn m loc)) then "rejected" else
+    let c := match lis with
+      | none => readLocation m loc
+      | some l => readLis m l
+    let c := match pos with
+      | none => c
+      | some p => c.takeIx step p
+    if what == "bounds" then
+      match c.bounds with
+      | none => "none"
+      | some b => if norm.isSome then "bad-op" else showIMat b
+    else
+      let arr := if what == "topo" then some c.topology else if what == "cconn" then some c.cconn else none
+      match arr with
+      | none => "bad-op"
+      | some none => "none"
+      | some (some a) =>
+        match norm with
+        | none => showMat a
+        | some ob =>
+          if what == "topo" && loc != Loc.node then showMat (normaliseNodes (ob == 1) a)
+          else
+            let d : IMat := mapVals (fun (v : Nat) => (v : Int)) a
+            if !idsOk d then "rejected" else showIMat (normaliseCellIds (ob == 1) d)
+
 def run (sub : String) (kv : KV) : String :=
   match sub with
   | "point" => runPoint kv
@@ -125,6 +218,7 @@ def run (sub : String) (kv : KV) : String :=
   | "cconn" => runCconn kv
   | "bounds" => runBounds kv
   | "norm" => runNorm kv
+  | "read" => runRead kv
   | _ => "bad-op"
 
 end Cfdm.Driver.C15
